@@ -12,7 +12,7 @@ From Coq Require Import ZArith List Bool.
 From Model Require Import Bits Word Instr Sim IsaWire Load.
 From Spec Require Import IsaSpec.
 From Proofs Require Import SimNoPanic SimRefinePrims SimRefineExec SimRefineStep SimWf.
-From Proofs Require Import SimStrictSpec.
+From Proofs Require Import SimStrictSpec SimStrictRun SimStrictRunSpec.
 Import ListNotations.
 Open Scope Z_scope.
 
@@ -81,3 +81,12 @@ Proof.
   - assert (E : s_pc (new_sim (mkFlags false true false false) 1234) = 12288) by (vm_compute; reflexivity).
     rewrite E. split; [discriminate | reflexivity].
 Qed.
+
+(* ... and runs of strict machines: without a strict error along the way, the run is the reference run *)
+Theorem C08_strict_run_refines : forall es s, WF s ->
+  existsb strict_out (snd (run_n es s)) = false ->
+  let '(s', outs) := run_n es s in
+  let '(a', souts) := spec_run es (abs s) in
+  a' = abs s' /\ Forall2 out_match outs souts.
+Proof. exact strict_run_refines. Qed.
+Print Assumptions C08_strict_run_refines.
